@@ -1557,3 +1557,93 @@ Proof.
   - constructor.
   - constructor; [right; not_in|constructor].
 Qed.
+
+(* ------------------------------------------------------------------ one object, several calls *)
+Lemma model_calls_spec i l : model_calls i l = calls spec_policy i None l.
+Proof. unfold model_calls. rewrite facts_policy_ok. reflexivity. Qed.
+
+Lemma out_eqb_refl o : out_eqb o o = true.
+Proof. unfold out_eqb. rewrite !text_eqb_refl. reflexivity. Qed.
+
+Lemma out_eqb_eq a b : out_eqb a b = true -> a = b.
+Proof.
+  unfold out_eqb. intros H. apply andb_true_iff in H as [H H4]. apply andb_true_iff in H as [H H3].
+  apply andb_true_iff in H as [H1 H2].
+  apply text_eqb_eq in H1, H2, H3, H4. destruct a, b; simpl in *; congruence.
+Qed.
+
+Lemma existsb_cons_r {A} (f : A -> bool) x l : existsb f l = true -> existsb f (x :: l) = true.
+Proof. intros H. simpl. rewrite H. apply orb_true_r. Qed.
+
+Lemma history_ok_calls P i l : forall done seen,
+  (forall o, done = Some o -> existsb (fun x => is_ok_out x o) seen = true) ->
+  history_ok_from seen (calls P i done l) (map (fun s => prepare P (with_call i s)) l) = true.
+Proof.
+  induction l as [|s r IH]; intros done seen Hinv; [reflexivity|].
+  cbn [calls map]. destruct done as [o|].
+  - cbn [history_ok_from]. rewrite (existsb_cons_r _ _ _ (Hinv o eq_refl)). cbn [andb].
+    apply IH. intros o' Ho'. injection Ho' as <-. apply existsb_cons_r. apply Hinv. reflexivity.
+  - cbv zeta. set (x := prepare P (with_call i s)). cbn [history_ok_from].
+    assert (Hhead : match x with
+                    | Some (Ok o) => existsb (fun y => is_ok_out y o) (x :: seen)
+                    | _ => match x with Some (Ok _) => false | _ => true end
+                    end = true).
+    { destruct x as [[o| | |]|]; try reflexivity. cbn [existsb is_ok_out]. rewrite out_eqb_refl. reflexivity. }
+    rewrite Hhead. cbn [andb]. apply IH. intros o Ho.
+    unfold stored in Ho. destruct x as [[o'| | |]|]; try discriminate.
+    destruct (is_nil (o_body o')); [discriminate|]. injection Ho as <-.
+    cbn [existsb is_ok_out]. rewrite out_eqb_refl. reflexivity.
+Qed.
+
+(* the history the code produces passes the check, for every object and every sequence of calls *)
+Lemma history_consistent_b i l : history_ok (model_calls i l) (spec_singles i l) = true.
+Proof.
+  rewrite model_calls_spec. unfold history_ok, spec_singles. apply history_ok_calls. intros o H; discriminate.
+Qed.
+
+(* what the check means *)
+Lemma history_ok_sound rs : forall seen singles,
+  history_ok_from seen rs singles = true ->
+  forall k o, nth_error rs k = Some (Some (Ok o)) ->
+    In (Some (Ok o)) seen \/ exists j, (j <= k)%nat /\ nth_error singles j = Some (Some (Ok o)).
+Proof.
+  induction rs as [|r rs IH]; intros seen singles H k o Hk; [destruct k; discriminate|].
+  destruct singles as [|s singles]; [discriminate|].
+  cbn [history_ok_from] in H. apply andb_true_iff in H as [Hr Hrest].
+  destruct k as [|k].
+  - cbn [nth_error] in Hk. injection Hk as ->.
+    apply existsb_exists in Hr as [x [Hin Hx]].
+    assert (Ex : x = Some (Ok o)).
+    { destruct x as [[o'| | |]|]; try discriminate. simpl in Hx. apply out_eqb_eq in Hx. subst. reflexivity. }
+    subst x. destruct Hin as [<-|Hin]; [right; exists 0%nat; split; [lia|reflexivity]|left; exact Hin].
+  - cbn [nth_error] in Hk. destruct (IH _ _ Hrest k o Hk) as [Hin|[j [Hj Hn]]].
+    + destruct Hin as [<-|Hin]; [right; exists 0%nat; split; [lia|reflexivity]|left; exact Hin].
+    + right. exists (S j). split; [lia|exact Hn].
+Qed.
+
+(* Every response an exception object gives, at any point of any sequence of calls with any
+   environs and negotiation results, is -- status, content type, charset and body together --
+   exactly the specified rendering of one of the calls made so far: the content type always
+   belongs to the body it labels, and that body obeys the escaping rule of that form. *)
+Lemma history_consistent i l k o :
+  nth_error (model_calls i l) k = Some (Some (Ok o)) ->
+  exists j s, (j <= k)%nat /\ nth_error l j = Some s /\ spec (with_call i s) = Some (Ok o).
+Proof.
+  intros Hk.
+  destruct (history_ok_sound _ [] _ (history_consistent_b i l) k o Hk) as [[]|[j [Hj Hn]]].
+  unfold spec_singles in Hn. rewrite nth_error_map in Hn.
+  destruct (nth_error l j) as [s|] eqn:Es; [|discriminate].
+  exists j, s. split; [exact Hj|]. split; [exact Es|]. simpl in Hn. injection Hn as Hn. exact Hn.
+Qed.
+
+(* the first call is an ordinary rendering; after a rendering with a non-empty body every call repeats it *)
+Lemma history_first i s r : model_calls i (s :: r) = spec (with_call i s) :: calls spec_policy i (stored (spec (with_call i s))) r.
+Proof. rewrite model_calls_spec. reflexivity. Qed.
+
+Lemma calls_sticky P i o l : calls P i (Some o) l = map (fun _ => Some (Ok o)) l.
+Proof. induction l as [|s r IH]; [reflexivity|]. simpl. rewrite IH. reflexivity. Qed.
+
+Example ex_history :
+  let l := [(ex_env, [t_plain]); (ex_env, [t_html])] in
+  exists o, model_calls (ex_input []) l = [Some (Ok o); Some (Ok o)] /\ o_ctype o = t_plain.
+Proof. eexists. split; [vm_compute; reflexivity|]. vm_compute. reflexivity. Qed.
